@@ -810,6 +810,14 @@ def corrupt_trace(t, how):
 
 # ------------------------------------------------------------------ trace validation with the verdict / drift split
 
+def jopts(ctx):
+    """JVM options for every TLC run of these two properties: the parser fold and the formatter are
+    recursive operators, TLC evaluates them with deeply nested Java frames -- give the worker threads
+    a large stack (the default overflows once the optimising JIT is switched off, as core does for
+    the quick tier)"""
+    return (["-XX:TieredStopAtLevel=1"] if ctx.tier == "quick" else []) + ["-Xss64m"]
+
+
 def golden_traces():
     """two hand-written traces (they do not depend on the code under test): what a correct parser shows
     for  header / '' / change / '' / trailer / ''  prefix by prefix, and three editing calls on it.
@@ -862,7 +870,8 @@ def validate(ctx, traces):
     controls, vcontrols = golden_controls()
     payload = [strip_trace(t) for t in traces]
     acc, _, r = core.validate_traces(ctx, "TraceChangelog", "TraceChangelog.cfg", payload + golden,
-                                     extra_env={"TRACE_DIAG": "0", "TRACE_MODE": "full"}, controls=controls)
+                                     extra_env={"TRACE_DIAG": "0", "TRACE_MODE": "full"}, controls=controls,
+                                     java_opts=jopts(ctx))
     if r.printed.get("REJECT"):
         raise core.MachineryError("classifier and generator disagree on a well-formed text: %r" % r.printed["REJECT"][:3])
     for j in range(len(golden)):
@@ -873,7 +882,8 @@ def validate(ctx, traces):
         return [], [], {}       # (verdict mode decides nothing in this run)
     sub = [payload[i - 1] for i in rejected]
     acc2, prog, _ = core.validate_traces(ctx, "TraceChangelog", "TraceChangelog.cfg", sub + golden,
-                                         extra_env={"TRACE_DIAG": "1", "TRACE_MODE": "verdict"}, controls=vcontrols)
+                                         extra_env={"TRACE_DIAG": "1", "TRACE_MODE": "verdict"}, controls=vcontrols,
+                                         java_opts=jopts(ctx))
     for j in range(len(golden)):
         if len(sub) + 1 + j not in acc2:
             raise core.MachineryError("golden %s trace not accepted in verdict mode" % golden[j]["kind"])
@@ -886,7 +896,7 @@ def validate(ctx, traces):
             info[i] = prog.get(j + 1, 0)
     if drift:
         _, prog3, _ = core.validate_traces(ctx, "TraceChangelog", "TraceChangelog.cfg", [payload[i - 1] for i in drift[:20]],
-                                           extra_env={"TRACE_DIAG": "1", "TRACE_MODE": "full"})
+                                           extra_env={"TRACE_DIAG": "1", "TRACE_MODE": "full"}, java_opts=jopts(ctx))
         for j, i in enumerate(drift[:20]):
             info[i] = prog3.get(j + 1, 0)
     return viol, drift, info
